@@ -10,7 +10,10 @@ import QV.Shared.ExprPrint
 /-! Driver side of the C03 correspondence check.
 
 input   `(rt STREAM E ASEED)`                      E = expression (bits), ASEED = seed of the 4 assignments
-output  `(out "text" (toks TOKEN…)|(lexerr) (ok E')|(err) (vals (v v v v) (v' v' v' v')))`
+output  `(out "text" (toks TOKEN…)|(lexerr) (ok E')|(err) (vals (v v v v) (v' v' v' v')) (routes same|differ) (again b))`
+input   `(emb STREAM POS E ASEED)`  the expression embedded in an instruction, read back by `Program::from_str`
+output  `(embout "text" (ok E')|(err)|(badshape) FROMSTR (vals (v…) (v'…)))`
+input   `(imm xRE xIM)`  a CALL immediate;  output `(immout "text" (ok xRE xIM)|(err))`
 
 agree   the model's printed tokens `printExprTokens e` = the real lexer's tokens of the real printer's
         text;  the model parser on the model's tokens = `norm e` (the theorem's instance, recomputed) =
@@ -76,6 +79,9 @@ def hasNegZero : PExpr → Bool
   | .pre _ e => hasNegZero e
   | _ => false
 
+/-- some memory region is named like a reserved word of the lexer -/
+def hasReservedRegion (e : PExpr) : Bool := !plainNames e
+
 def nontrivial : PExpr → Bool
   | .number z => !(fZero z.im && !fSign z.re)
   | e => e.depth ≥ 1
@@ -122,34 +128,84 @@ def handle (inp out : Sexp) : CaseResult :=
       let hypNumTok := numTokOk stdFmt e
       let hypLaws := allLits litLawsOkAt e
       match out with
-      | .list [.atom "out", .str text, iToks, iBack, .list [.atom "vals", .list orig, .list re]] =>
+      | .list [.atom "out", .str text, iToks, iBack, .list [.atom "vals", .list orig, .list re],
+          .list [.atom "routes", .atom routes], .list [.atom "again", .atom again]] =>
         let lexModel := LexWire.lexOutSexp (QV.Lex.lex text.toList)
         let lexModelOk := lexModel == (match iToks with
           | .list (.atom "toks" :: ts) => .list (.atom "ok" :: ts)
           | _ => .list [.atom "err"])
         let toksOk := iToks == mToks
         let backOk := iBack == mBack
-        let thmOk := mBack == normBack
-        -- outside the `negzero` stream the hypotheses of the theorem must hold of every generated input
-        let hypOk := if stream == "negzero" then true else hypFinite && hypNumTok && hypLaws
-        let agree := toksOk && backOk && thmOk && lexModelOk && hypOk
+        -- the theorem's instance, recomputed: whenever its hypotheses hold the model parse is `norm e`
+        let hyps := hypFinite && hypNumTok && plainNames e
+        let thmOk := !hyps || mBack == normBack
+        -- outside the two known-finding streams the hypotheses of the theorem must hold of every input
+        let special := stream == "negzero" || stream == "names-reserved-region"
+        let hypOk := special || (hyps && hypLaws)
         let reparsed := match iBack with | .list [.atom "ok", _] => true | _ => false
+        -- every printing route wrote the same text; a second round trip is the identity
+        let routesOk := routes == "same"
+        let againOk := again == "true" || !reparsed
+        let agree := toksOk && backOk && thmOk && lexModelOk && hypOk && routesOk && againOk
         let valsOk := allAgree valAgree orig re
         let bitsOk := allAgree valBitEq orig re
         let evalKinds := (orig.map fun v => match v with
           | .list [.atom "ok", _] => "val-ok" | _ => "val-err").eraseDups
-        { agree := agree, specOk := reparsed && valsOk, nontrivial := nontrivial e,
+        let specOk := reparsed && valsOk
+        { agree := agree, specOk := specOk, nontrivial := nontrivial e,
           tags := ["s-" ++ stream, s!"depth{min e.depth 8}", lenTag toks.length,
             (if norm e == e then "norm-same" else "norm-changed"),
             (if bitsOk then "vals-bit-identical" else "vals-close-only")] ++
             (ctorTags e).eraseDups ++ (printerTags e).eraseDups ++ tokKindTags toks ++ evalKinds ++
             (if hasNegZero e then ["has-negzero"] else []) ++
-            -- candidate known finding: the values differ AND the input has a literal with a -0.0 component
-            (if !(reparsed && valsOk) && hasNegZero e then ["kf:C03/negative-zero-literal"] else []),
-          detail := s!"toksOk={toksOk} backOk={backOk} thmOk={thmOk} lexModelOk={lexModelOk} finiteLits={hypFinite} numTokOk={hypNumTok} litLaws={hypLaws} reparsed={reparsed} valsOk={valsOk} text={repr text} modelToks={mToks} implToks={iToks} modelBack={mBack} implBack={iBack} norm={normBack} orig={Sexp.list orig} re={Sexp.list re}" }
+            (if hasReservedRegion e then ["has-reserved-region"] else []) ++
+            -- known findings, narrow classifiers over (input, implementation output)
+            (if !specOk && hasNegZero e then ["kf:C03/negative-zero-literal"] else []) ++
+            (if !reparsed && hasReservedRegion e then ["kf:C03/reserved-word-region-name"] else []),
+          detail := s!"toksOk={toksOk} backOk={backOk} thmOk={thmOk} lexModelOk={lexModelOk} finiteLits={hypFinite} plainNames={plainNames e} numTokOk={hypNumTok} litLaws={hypLaws} routes={routes} again={again} reparsed={reparsed} valsOk={valsOk} text={repr text} modelToks={mToks} implToks={iToks} modelBack={mBack} implBack={iBack} norm={normBack} orig={Sexp.list orig} re={Sexp.list re}" }
       | _ =>
         { agree := false, specOk := false, nontrivial := nontrivial e, tags := ["s-" ++ stream, "bad-output"],
           detail := s!"unexpected implementation output {out}; modelToks={mToks} modelBack={mBack}" }
+  | .list [.atom "emb", .atom stream, .atom pos, eS, _] =>
+    match AstWire.decodeExpr eS with
+    | none => .bad s!"undecodable expression {eS}"
+    | some e =>
+      -- the model: in every position the embedded expression is followed by a token that is `endOk`
+      -- (`)`, `,`, a newline, a string, an identifier other than `i`, or nothing), so `C03_with_tail` says it
+      -- reads back as `norm e`
+      let expected : Sexp := .list [.atom "ok", AstWire.encodeExpr (norm e)]
+      let hyps := finiteLits e && plainNames e && numTokOk stdFmt e
+      match out with
+      | .list [.atom "embout", .str text, iEmb, iFromStr, .list [.atom "vals", .list orig, .list vals]] =>
+        let embOk := iEmb == expected
+        let siblingOk := iEmb == iFromStr
+        let reparsed := match iEmb with | .list [.atom "ok", _] => true | _ => false
+        let valsOk := allAgree valAgree orig vals
+        { agree := embOk && siblingOk && hyps, specOk := reparsed && valsOk, nontrivial := true,
+          tags := ["s-" ++ stream, "pos-" ++ pos, s!"depth{min e.depth 8}"] ++ (ctorTags e).eraseDups,
+          detail := s!"pos={pos} embOk={embOk} siblingOk={siblingOk} hyps={hyps} reparsed={reparsed} valsOk={valsOk} text={repr text} embedded={iEmb} fromStr={iFromStr} norm={expected} orig={Sexp.list orig} vals={Sexp.list vals}" }
+      | _ =>
+        { agree := false, specOk := false, nontrivial := true, tags := ["s-" ++ stream, "pos-" ++ pos, "bad-output"],
+          detail := s!"unexpected implementation output {out}" }
+  | .list [.atom "imm", reS, imS] =>
+    -- a CALL immediate is a Complex64, not an Expression: no tree to compare, the specification is that the
+    -- number read back is the number written (zero signs aside, cf. C03/negative-zero-literal)
+    match ExprWire.decodeF64 reS, ExprWire.decodeF64 imS with
+    | some re, some im =>
+      match out with
+      | .list [.atom "immout", .str text, .list [.atom "ok", r2, i2]] =>
+        match ExprWire.decodeF64 r2, ExprWire.decodeF64 i2 with
+        | some re2, some im2 =>
+          let same := re == re2 && im == im2
+          let bits := r2 == reS && i2 == imS
+          { agree := same, specOk := same, nontrivial := true,
+            tags := ["s-imm", (if bits then "imm-bit-identical" else "imm-equal-only")],
+            detail := s!"text={repr text} in=({reS} {imS}) out=({r2} {i2})" }
+        | _, _ => .bad s!"undecodable immediate output {out}"
+      | _ =>
+        { agree := false, specOk := false, nontrivial := true, tags := ["s-imm", "imm-unparsed"],
+          detail := s!"the CALL immediate did not read back: {out}" }
+    | _, _ => .bad s!"undecodable input {inp}"
   | _ => .bad s!"undecodable input {inp}"
 
 end QV.C03
